@@ -136,6 +136,28 @@ pub fn run(case: &Value) -> Value {
             json!({"ok": true, "append_to_created": r1, "parent_of_c": parent_of_c, "move_ok": r2, "p_children_after_move": p_children,
                    "root_children_after_move": root_children, "parent_of_c_after_move": parent_after, "printed": format!("{}", doc)})
         }
+        "in_scope" => {
+            // the in-scope namespaces of the innermost element on the first-child chain: sorted (prefix or "xmlns", uri)
+            use xml_dom::{Document, Node};
+            match xml_dom::XmlDocument::from_raw(input) {
+                Ok((_, doc)) => {
+                    let mut e = doc.document_element().unwrap();
+                    loop {
+                        let next = e.child_nodes().iter().find_map(|n| if let xml_dom::XmlNode::Element(c) = n { Some(c) } else { None });
+                        match next { Some(c) => e = c, None => break }
+                    }
+                    match e.in_scope_namespace() {
+                        Ok(nss) => {
+                            let mut v: Vec<(String, String)> = nss.iter().map(|n| (n.node_name(), n.node_value().ok().flatten().unwrap_or_default())).collect();
+                            v.sort();
+                            json!({"ok": true, "in_scope": v})
+                        }
+                        Err(er) => json!({"ok": false, "err": format!("{:?}", er)}),
+                    }
+                }
+                Err(e) => json!({"ok": false, "doc_err": format!("{:?}", e)}),
+            }
+        }
         "mutate" => mutate(case),
         "chardata" => chardata(case),
         "create" => create(case),
